@@ -604,6 +604,31 @@ fn run_random(r: usize, pool: &Pool, seed: u64, len: usize, fault: &Option<Strin
             do_closest(&mut run, &mut rng, 1);
         }
     }
+    // phase 1b: peers of full buckets that are stored as not connected connect (inbound and
+    // outbound alternately), then new peers arrive for the same buckets: nobody who connected
+    // may be displaced
+    {
+        let full: Vec<(usize, Vec<Entry>)> = run.prev.iter().filter(|(_, v)| v.len() >= 20).map(|(i, v)| (*i, v.clone())).collect();
+        let mut dial = r % 2 == 0;
+        for (b, entries) in full.iter().take(3) {
+            let mut n = 0;
+            for e in entries.iter().filter(|e| e.u == 1 && e.conn != "C") {
+                run.peer_op("est", e.id as usize - 1, 0, "N", dial, 0);
+                dial = !dial;
+                n += 1;
+                if n >= 3 {
+                    break;
+                }
+            }
+            let stored: std::collections::BTreeSet<i64> = run.prev.values().flatten().filter(|e| e.u == 1).map(|e| e.id).collect();
+            let newcomers: Vec<usize> = (0..np).filter(|ix| u.xb(&u.peers[*ix].h) == *b as i64 && !stored.contains(&(*ix as i64 + 1))).take(5).collect();
+            for ix in newcomers {
+                let c = ["N", "C", "N", "X"][rng.gen_range(0..4)];
+                run.peer_op("add", ix, 1, c, false, 0);
+            }
+        }
+        do_closest(&mut run, &mut rng, 1);
+    }
     // phase 2: mixed history
     for step in 0..len {
         let c = conns[rng.gen_range(0..conns.len())];
